@@ -634,6 +634,24 @@ def r6_tree_eq_hash_drop(rule, root=None):
             rule.ok("eq recurses over iter_children pairwise on the heap")
         else:
             rule.bad("eq|walk", "eq must walk both trees' iter_children() pairwise", A.where(eq))
+        # inside the work-list loop nothing can decide "equal": a pair that matches
+        # (same pointer, same payload) only lets the walk go on
+        loops = [n for n in A.walk(eq["body"]) if n.get("k") in ("While", "Loop", "For")]
+        early = []
+        for lp in loops:
+            for n in A.walk(lp["body"]):
+                if n.get("k") == "Return":
+                    v = A.strip(n.get("e")) if n.get("e") else None
+                    if not (v and v.get("k") == "Lit" and v.get("ty") == "bool" and v.get("v") == "false"):
+                        early.append(n)
+                elif n.get("k") == "Break":
+                    early.append(n)
+        if not loops:
+            rule.bad("eq|loop", "eq has no work-list loop", A.where(eq))
+        elif early:
+            rule.bad("eq|early", "eq leaves its work-list loop with `%s`: only a mismatch (`return false`) may end the walk before every pair was compared" % A.unparse(early[0])[:40], A.where(eq, early[0]))
+        else:
+            rule.ok("eq: the walk ends early only with `return false`")
     # iter_children / iter_children_mut list every Arc field
     e = A.find_item(TREE, "EnumDef", "TreeOp", root)
     arcs = {}
@@ -721,7 +739,7 @@ def run(ctx):
     ctx.guarded(r, r2_namesakes)
     r = ctx.rule("R3", "import/export push and pop operands in matching order and rebuild with the same opcode", 21)
     ctx.guarded(r, r3_stack_discipline)
-    r = ctx.rule("R6", "TreeOp eq / hash cover the same payload, walk the same children; drop is iterative", 31)
+    r = ctx.rule("R6", "TreeOp eq / hash cover the same payload, walk the same children; drop is iterative", 32)
     ctx.guarded(r, r6_tree_eq_hash_drop)
     r = ctx.rule("R7", "deep-tree entry points are loops, not recursion", 7)
     ctx.guarded(r, r7_no_recursion)
